@@ -300,10 +300,13 @@ static int cmd_kalign(const char* path, int threads, int type, float gpo, float 
         sb_kint(&b,"n",n);
         sb_kint(&b,"alnlen",alnlen);
         if(rc == 0 && aln){
+                /* kalign() returns one row per non-empty input sequence (empty ones are dropped); the caller has to know that count */
+                int nrows = 0;
+                for(int i = 0; i < n; i++){ if(lens[i] > 0) nrows++; }
                 sb_key(&b,"rows"); sb_str(&b,"[");
-                for(int i = 0; i < n; i++){ if(i) sb_str(&b,","); sb_chars(&b, aln[i], (int)strlen(aln[i])); }
+                for(int i = 0; i < nrows; i++){ if(i) sb_str(&b,","); sb_chars(&b, aln[i], (int)strlen(aln[i])); }
                 sb_str(&b,"]");
-                for(int i = 0; i < n; i++) free(aln[i]);
+                for(int i = 0; i < nrows; i++) free(aln[i]);
                 free(aln);
         }
         emit("Arr",&b);
